@@ -7,7 +7,7 @@
 
 volatile unsigned long vt_marker;
 static unsigned char SEC[16][96], PUBP[32], EDP[32], OUT[256], NONCE[24], MSG[200], SK[64];
-static int nsec;
+static int nsec; static unsigned char CAND[4][64];
 
 static void build_secrets(size_t slen)
 {
@@ -23,10 +23,12 @@ int main(int argc, char **argv)
     if (sodium_init() < 0) return 2;
     vf_pat(seed, 32, PAT_R1, 1310); crypto_scalarmult_base(PUBP, seed); crypto_scalarmult_ed25519_base(EDP, seed); vf_pat(NONCE, 24, PAT_C, 1); vf_pat(MSG, sizeof MSG, PAT_C, 2);
     { unsigned char pk[32]; crypto_sign_seed_keypair(pk, SK, seed); }
-    which = !strcmp(op, "x25519") ? 0 : !strcmp(op, "x25519_base") ? 1 : !strcmp(op, "salsa20_xor") ? 2 : !strcmp(op, "sign") ? 3 : !strcmp(op, "ed25519_mult") ? 4 : !strcmp(op, "xsalsa20_xor") ? 5 : !strcmp(op, "poly1305") ? 6 : -1;
+    which = !strcmp(op, "x25519") ? 0 : !strcmp(op, "x25519_base") ? 1 : !strcmp(op, "salsa20_xor") ? 2 : !strcmp(op, "sign") ? 3 : !strcmp(op, "ed25519_mult") ? 4 : !strcmp(op, "xsalsa20_xor") ? 5 : !strcmp(op, "poly1305") ? 6 : !strcmp(op, "mac_verify") ? 7 : !strcmp(op, "secretbox_open") ? 8 : -1;
     if (which < 0) return 2;
-    if (which == 2 || which == 5 || which == 6) slen = 96;          /* key(32) || message(64) */
+    if (which == 2 || which == 5 || which == 6 || which == 7 || which == 8) slen = 96;          /* key(32) || message(64) */
     build_secrets(slen);
+    crypto_auth(CAND[0], SEC[0] + 32, 64, SEC[0]); CAND[0][31] ^= 1; crypto_auth_hmacsha256(CAND[1], SEC[0] + 32, 64, SEC[0]); CAND[1][31] ^= 1;
+    crypto_auth_hmacsha512(CAND[2], SEC[0] + 32, 64, SEC[0]); CAND[2][63] ^= 1; crypto_onetimeauth(CAND[3], SEC[0] + 32, 64, SEC[0]); CAND[3][15] ^= 1;
     printf("MARKER %p\nNSECRETS %d\nFEATURES avx=%d avx2=%d\n", (void *) &vt_marker, nsec, sodium_runtime_has_avx(), sodium_runtime_has_avx2()); fflush(stdout);
     for (k = -1; k < nsec; k++) {                   /* k = -1: warm-up, discarded by the driver */
         static unsigned char CUR[96]; const unsigned char *s = CUR;      /* same address for every secret */
@@ -40,6 +42,11 @@ int main(int argc, char **argv)
         case 4: crypto_scalarmult_ed25519(OUT, s, EDP); break;
         case 5: crypto_stream_xsalsa20_xor(OUT, s + 32, 64, NONCE, s); break;
         case 6: crypto_onetimeauth(OUT, s + 32, 64, s); break;
+        case 7: /* every MAC verification wrapper against fixed public candidate tags.  The candidates are the correct tags of secret 0 with the LAST byte
+                 * changed: under secret 0 the comparison differs only at the end, under every other secret at the start - an early-exit comparison shows */
+            OUT[200] = (unsigned char) (crypto_auth_verify(CAND[0], s + 32, 64, s) | crypto_auth_hmacsha256_verify(CAND[1], s + 32, 64, s) | crypto_auth_hmacsha512_verify(CAND[2], s + 32, 64, s) |
+                                        crypto_auth_hmacsha512256_verify(CAND[0], s + 32, 64, s) | crypto_onetimeauth_verify(CAND[3], s + 32, 64, s)); break;
+        case 8: OUT[200] = (unsigned char) crypto_secretbox_open_easy(OUT, MSG, 80, NONCE, s); break;     /* forged box under a secret key: rejected, trace must not depend on the key */
         }
         vt_marker = 0x2000UL + (unsigned long) (k + 1);
     }
